@@ -300,6 +300,7 @@ def _run_case_once(case):
         viol('derivative-shapes', f'shapes g{g.shape} h{h.shape} b{b.shape} for N={nrows} K={K}')
         return rec.out()
     rec.info['engine_derivatives'] = [repr(g.tolist()), repr(h.tolist()), repr(b.tolist())]
+    first_output_snapshot = [np.array(a, dtype=float, copy=True) for a in (r.functions, r.gradients, r.hessians, r.bhhhs)]
     nonzero = float(np.max(np.abs(gref))) > 1e-12
     if nonzero:
         rec.key([spec['ast'], spec['shared'], spec['data'], spec['betas']])
@@ -532,6 +533,14 @@ def _run_case_once(case):
         except BaseException as e:
             viol(f'named-results-access-raises-{type(e).__name__}', str(e))
 
+    # ---- the first output object must still read what it read when it was returned -------------------
+    rec.ev()
+    rec.c('earlier_expression_output_rechecked')
+    for label, a, b_ in zip(('functions', 'gradients', 'hessians', 'bhhhs'), first_output_snapshot,
+                            (r.functions, r.gradients, r.hessians, r.bhhhs)):
+        if not np.array_equal(a, np.asarray(b_, dtype=float), equal_nan=True):
+            viol(f'expression-output-{label}-changed-by-a-later-call', f'{label} of the first output changed after later evaluations')
+
     # ---- BIOGEME.calculate_likelihood_and_derivatives, create_function, objective, check_derivatives ---
     if case['i'] % 2 == 0:
         _biogeme_paths(rec, viol, spec, names, bv, ref, gref, href, outer, gscale, hscale, g_rtol, nrows, rr)
@@ -582,6 +591,28 @@ def _biogeme_paths(rec, viol, spec, names, bv, ref, gref, href, outer, gscale, h
             viol('likelihood-hessian-differs', f'scaled={scaled}: {np.asarray(r.hessian).tolist()} vs {(hsum / d).tolist()}')
         if not close(r.bhhh, outer.sum(axis=0) / d, 1e-6, 1e-8 * gscale * gscale * nrows):
             viol('likelihood-bhhh-differs', f'scaled={scaled}')
+    # results handed out earlier must not be changed by later calls on the same object (no shared buffers)
+    try:
+        r1 = bg.calculate_likelihood_and_derivatives(x, scaled=False, hessian=True, bhhh=True)
+        snap = [float(r1.function)] + [np.array(a, dtype=float, copy=True) for a in (r1.gradient, r1.hessian, r1.bhhh)]
+        for step in (0.11, -0.07):
+            x_other = [v + step * (k + 1) for k, v in enumerate(x)]
+            try:
+                bg.calculate_likelihood_and_derivatives(x_other, scaled=False, hessian=True, bhhh=True)
+                bg.calculate_likelihood_and_derivatives(x_other, scaled=True, hessian=True, bhhh=False)
+                bg.calculate_likelihood(x_other, scaled=False)
+            except BaseException:
+                break  # the other point may leave the domain: nothing to learn
+        rec.ev()
+        rec.c('earlier_result_rechecked_after_later_calls')
+        now = [float(r1.function)] + [np.asarray(a, dtype=float) for a in (r1.gradient, r1.hessian, r1.bhhh)]
+        for label, a, b_ in zip(('value', 'gradient', 'hessian', 'bhhh'), snap, now):
+            if not np.array_equal(np.asarray(a), np.asarray(b_), equal_nan=True):
+                viol(f'likelihood-result-{label}-changed-by-a-later-call-on-the-same-object',
+                     f'{label} of the result obtained at x={x} was {np.asarray(a).tolist()} and reads {np.asarray(b_).tolist()} '
+                     f'after later evaluations at other points')
+    except BaseException as e:
+        viol(f'calculate_likelihood_and_derivatives-raises-{type(e).__name__}', str(e))
     # create_function (named outputs by sorted name)
     try:
         e3, _ = build.build(spec)
@@ -726,7 +757,7 @@ def extra(seed, tier, workdir):
 
 def finalize(cov, tier):
     out = []
-    for k in ('fd_of_engine_value_compared', 'fd_of_engine_gradient_compared', 'named_results_compared',
+    for k in ('earlier_result_rechecked_after_later_calls', 'fd_of_engine_value_compared', 'fd_of_engine_gradient_compared', 'named_results_compared',
               'biogeme_likelihood_derivatives_compared', 'create_function_compared', 'objective_function_compared',
               'check_derivatives_compared', 'nodatabase_compared'):
         if cov.get(k, 0) == 0:
